@@ -92,7 +92,11 @@ func simC16(c *sim.Ctx) {
 		cancelAt = c.Draw(30)
 	}
 	fastConsumer := c.Chance(500)
-	c.Ev("config", b2i(zero), b2i(channel), int64(opt), int64(cancelAt))
+	// abandon: after the cancellation the consumer walks away without draining
+	// the channel; the background reader must still stop (drawn here because
+	// nothing after the cancellation may draw from the tape)
+	abandon := cancelAt >= 0 && c.Chance(350)
+	c.Ev("config", b2i(zero), b2i(channel), int64(opt), int64(cancelAt), b2i(abandon))
 	bubble.Run(c, func(b *bubble.B) {
 		st := &stub{feed: make(chan item), zeroCopy: zero, shared: make([]byte, 256)}
 		var ps *gopacket.PacketSource
@@ -198,7 +202,11 @@ func simC16(c *sim.Ctx) {
 		steps := 0
 		idleAdvance := 0
 		var afterCancel *item // what the read in progress at cancellation will return
-		fill := channel && ch != nil && c.Chance(25)
+		fillPm := 25
+		if abandon {
+			fillPm = 120 // cancellation while the reader is blocked on the full channel
+		}
+		fill := channel && ch != nil && c.Chance(fillPm)
 		if fill {
 			// back-pressure: nobody consumes until all 1000 slots of the channel
 			// are taken and the reader blocks on the 1001st packet
@@ -378,6 +386,26 @@ func simC16(c *sim.Ctx) {
 				if st.pending {
 					c.Fail("cancel", "read-started-after-cancel", "packetsToChannel", "the context was cancelled and the read in progress returned (kind %d), yet the source is being read again", it.kind)
 				}
+			}
+			if cancelled && abandon {
+				// Nobody receives any more. "Cancelling the context stops the
+				// background reader as soon as its current read returns": the reader
+				// may be parked on a full channel, in its retry sleep or between
+				// reads, and must be gone shortly after - a goroutine still alive at
+				// the end of the bubble is reported by synctest as a deadlock.
+				time.Sleep(50 * time.Millisecond)
+				b.Settle()
+				if st.pending {
+					c.Fail("cancel", "read-started-after-cancel", "packetsToChannel", "the context was cancelled, nobody consumes, and the source is being read again")
+				}
+				c.Probe("cancelled_and_abandoned")
+				if fill {
+					c.Probe("cancelled_while_blocked_on_full_channel")
+				}
+				b.DeadClause = [3]string{"cancel", "reader-goroutine-left", "packetsToChannel"}
+				b.DeadDetail = "the context was cancelled, the read in progress returned and the consumer stopped receiving, yet the background reader of the packet source never exited (still blocked when the bubble ended)"
+				b.Finish()
+				return
 			}
 			// drain
 			for k := 0; k < 2400 && !closed; k++ {
